@@ -47,7 +47,7 @@ import (
 	"verifharness/srv"
 )
 
-// Op is one case (also the replay format). Map values and the parser argument are hex, because
+// Op is one case (also the replay format; path "model" = a correspondence case). Map values and the parser argument are hex, because
 // they are arbitrary bytes.
 type Op struct {
 	Path    string            `json:"path"`              // parser | invoke | tcp | udp
@@ -164,6 +164,126 @@ func callParser(fn, v string) (out string) {
 		_, _ = current.GetDyeingKey(ctx)
 	}
 	return "ok"
+}
+
+// ---- correspondence with Model/TraceKey.lean (ops tracetype / tracekey of tm_wire) ----
+
+// search: the parameter limit, observed through the public API (`len > maxLen*1024` ⇒ EnpOverMaxLen)
+func limitOf(over func(n uint) bool) uint {
+	lo, hi := uint(0), uint(1)<<44 // over(hi) holds: maxLen < 2^32
+	for lo+1 < hi {
+		mid := lo + (hi-lo)/2
+		if over(mid) {
+			hi = mid
+		} else {
+			lo = mid
+		}
+	}
+	return lo / 1024
+}
+
+// obsInitType: (typ, maxLen) of trace.initType(id) as NeedTraceParam shows them; the limit is
+// observable only when some type bit is set.
+func obsInitType(id string) (out string) {
+	defer func() {
+		if r := recover(); r != nil {
+			out = "panic"
+		}
+	}()
+	typ := 0
+	var first tarstrace.SpanType
+	for _, es := range []tarstrace.SpanType{tarstrace.EstCS, tarstrace.EstCR, tarstrace.EstSR, tarstrace.EstSS} {
+		if tarstrace.NeedTraceParam(es, id, 0) != tarstrace.EnpNo {
+			typ |= int(es)
+			if first == 0 {
+				first = es
+			}
+		}
+	}
+	if typ == 0 {
+		return "ok 0 -"
+	}
+	return fmt.Sprintf("ok %d %d", typ, limitOf(func(n uint) bool { return tarstrace.NeedTraceParam(first, id, n) == tarstrace.EnpOverMaxLen }))
+}
+
+// obsInit: SpanContext.Init(key) through Trace.InitTrace
+func obsInit(key string) (out string) {
+	defer func() {
+		if r := recover(); r != nil {
+			out = "panic"
+		}
+	}()
+	tr := tarstrace.New()
+	if !tr.InitTrace(key) {
+		return "reset"
+	}
+	typ := tr.GetTraceType()
+	if typ == 0 {
+		return "ok 0 -"
+	}
+	var first tarstrace.SpanType
+	for _, es := range []tarstrace.SpanType{tarstrace.EstCS, tarstrace.EstCR, tarstrace.EstSR, tarstrace.EstSS} {
+		if typ&int(es) != 0 {
+			first = es
+			break
+		}
+	}
+	return fmt.Sprintf("ok %d %d", typ, limitOf(func(n uint) bool { return tr.NeedTraceParam(first, n) == tarstrace.EnpOverMaxLen }))
+}
+
+func canonTraceModel(ans string) string {
+	f := strings.Fields(ans)
+	if len(f) == 3 && f[0] == "ok" && f[1] == "0" {
+		return "ok 0 -"
+	}
+	if len(f) >= 2 && f[0] == "err" && strings.HasPrefix(f[1], "panic") {
+		return "panic"
+	}
+	return ans
+}
+
+func (r *runner) runModel(vals []string) {
+	bin := r.o.Model
+	if bin != "" {
+		bin = filepath.Join(filepath.Dir(bin), "tm_wire")
+		if _, err := os.Stat(bin); err != nil {
+			bin = ""
+			r.res.Note("model driver tm_wire not built: correspondence skipped")
+		}
+	}
+	m, err := common.StartModel(bin, "wire")
+	if err != nil {
+		r.res.Fatal(r.o.Out, err)
+	}
+	defer m.Close()
+	dflt := tarstrace.GetTraceParamMaxLen()
+	lines := make([]string, 0, 2*len(vals))
+	for _, v := range vals {
+		lines = append(lines, fmt.Sprintf("tracetype %d %s", dflt, common.Hex([]byte(v))), fmt.Sprintf("tracekey %d %s", dflt, common.Hex([]byte(v))))
+	}
+	ans, err := m.Batch(lines)
+	if err != nil {
+		r.res.Fatal(r.o.Out, err)
+	}
+	for i, v := range vals {
+		for j, fn := range []string{"initType", "SpanContext.Init"} {
+			var impl string
+			if j == 0 {
+				impl = obsInitType(v)
+			} else {
+				impl = obsInit(v)
+			}
+			op := Op{Path: "model", Fn: fn, Value: hex.EncodeToString([]byte(v)), Text: fmt.Sprintf("%q", v)}
+			r.count(op, fn+":"+strings.Fields(impl)[0])
+			ma := ans[2*i+j]
+			if r.o.Replay != "" {
+				fmt.Printf("%s(%q): model %s, impl %s\n", fn, v, ma, impl)
+			}
+			if ma != common.NoModel && canonTraceModel(ma) != impl {
+				r.res.Diverge(common.Case{Stream: "header", Op: op, Model: ma, Impl: impl})
+			}
+		}
+	}
 }
 
 func panicClass(out string) string {
@@ -692,7 +812,7 @@ func main() {
 		return
 	}
 	res := common.NewResult("C05", o)
-	res.Streams = []string{"header"}
+	res.Streams = []string{"header", "wire"}
 	res.Rule = "well-formed RequestPackets whose header (version, packet type, every combination of message-type bits) and status/context maps (trace key, dyeing key, … with grammar-directed hostile values) select the rarely used paths of Protocol.Invoke: parsers in-process with recover, Protocol.Invoke in a child process, a real server child over TCP and UDP; oracle: no panic, the process survives and still answers a ping"
 	r := &runner{o: o, res: res}
 	panicDumps() // stale dumps of earlier runs
@@ -705,6 +825,8 @@ func main() {
 		switch op.Path {
 		case "parser":
 			r.runParser([]string{unhexS(op.Value)}, op.Fn)
+		case "model":
+			r.runModel([]string{unhexS(op.Value)})
 		case "invoke":
 			r.runInvoke([]Op{op})
 		default:
@@ -738,6 +860,15 @@ func main() {
 		}
 	}
 	r.runParser(vals, "")
+	// 1b. the parser against its Lean model (Model/TraceKey.lean): type and limit as the public API shows them
+	mv := words(small, nSmallInvoke)
+	mv = append(mv, grammarTraceKeys(rng, 10*nGrammar)...)
+	for _, a := range numericTexts {
+		for _, b := range numericTexts {
+			mv = append(mv, a+"."+b+"-x", a+"-"+b+"|y|z", a+"."+b+"-x|y")
+		}
+	}
+	r.runModel(mv)
 	// 2. Protocol.Invoke in a child process
 	r.runInvoke(requests("invoke", rng, words(small, nSmallInvoke), 4*nGrammar, 1, "tars_ping"))
 	// 3. a real server over TCP and UDP
